@@ -146,6 +146,10 @@ def run_job(target, case, opts=None):
             # some element of the sequence makes the real code raise on this path -- not decided here, the raising path
             # itself is explored separately (branch on the same condition inside the function)
             out["undecided"].append(f"postcondition evaluation met a raising element ({e.exc.name if hasattr(e, 'exc') else e}) [path {ctx.path_id()}]")
+        except spec.SpecNameError as e:
+            # the contract names a local variable / parameter the function does not have (any more): the contract has to be
+            # brought up to date with the code -- undecided, not a violation
+            out["undecided"].append(f"contract refers to a name the function does not have: {str(e)[:160]} [path {ctx.path_id()}]")
         except Retype as e:
             # a loop variable needs a real-valued havoc: start the whole job again (the memo in loops.HAVOC_REAL now has it)
             retypes += 1
